@@ -100,6 +100,11 @@ def _case(draw):
     if cur:
         groups.append(cur)
     meta = sorted(draw(st.sets(st.sampled_from(idx))))
+    if draw(st.integers(0, 5)) == 0:
+        # the loader's defaults: every track its own group, every track considered for signatures
+        groups, meta = [[i] for i in idx], list(idx)
+        return {"tpb": tpb, "tracks": tracks, "groups": groups, "meta": meta, "target": draw(st.integers(0, ntracks - 1)),
+                "via_file": draw(st.integers(0, 3)) == 0, "defaults": True}
     return {"tpb": tpb, "tracks": tracks, "groups": groups, "meta": meta, "target": draw(st.integers(0, len(groups) - 1)),
             "via_file": draw(st.integers(0, 3)) == 0}
 
@@ -182,13 +187,15 @@ def check(case):
             with tempfile.TemporaryDirectory(dir=os.path.join(ROOT, ".cache")) as d:
                 path = os.path.join(d, "case.mid")
                 mido_file.save(path)
-                loaded = Sequence.sequences_load(file_path=path, track_indices=[list(g) for g in groups],
-                                                 meta_track_indices=list(meta_idx), target_meta_track_index=target)
+                loaded = Sequence.sequences_load(file_path=path, track_indices=None if case.get("defaults") else [list(g) for g in groups],
+                                                 meta_track_indices=None if case.get("defaults") else list(meta_idx),
+                                                 target_meta_track_index=target)
         else:
             mf = MidiFile()
             mf.parse_mido(mido_file)
-            loaded = Sequence.sequences_load(midi_file=mf, track_indices=[list(g) for g in groups],
-                                             meta_track_indices=list(meta_idx), target_meta_track_index=target)
+            loaded = Sequence.sequences_load(midi_file=mf, track_indices=None if case.get("defaults") else [list(g) for g in groups],
+                                             meta_track_indices=None if case.get("defaults") else list(meta_idx),
+                                             target_meta_track_index=target)
     except Exception as e:
         out.fail(f"load-raises:{type(e).__name__}", f"{e}")
         return out
